@@ -28,7 +28,7 @@ func (c14) NumCases(tier string) int {
 }
 
 func (c14) Rule() string {
-	return "positive: well-typed statements from the typed grammar (documented typing table) must be accepted, and executing them in row and batch mode on conforming stores must not fail (the generator excludes by construction the data-dependent failures the engine legitimately reports: zero divisors, bad patterns, reversed bounds, unequal vector lengths, dynamically typed JSON members); negative: every single-fault mutant - an operator applied to unsupported operand types, a non-Boolean WHERE or ! operand, key/value where the statement form forbids them, an unknown function, an argument count off by one, a constant aggregate parameter of the wrong type - with the fault placed at top level, under !, inside a call argument, below a (cascaded) field access, an IN item, a BETWEEN bound, a select field, an aggregate argument, or a PUT/REMOVE/DELETE expression must make BuildPlan return an error with an empty storage log whatever the store holds. Non-trivial: every generated statement; distinct by statement text."
+	return "positive: well-typed statements from the typed grammar (documented typing table) must be accepted, and executing them in row and batch mode on conforming stores must not fail (the generator excludes by construction the data-dependent failures the engine legitimately reports: zero divisors, bad patterns, reversed bounds, unequal vector lengths, dynamically typed JSON members); negative: every single-fault mutant - an operator applied to unsupported operand types, a non-Boolean WHERE or ! operand, key/value where the statement form forbids them, an unknown function, an argument count off by one, a constant aggregate parameter of the wrong type - with the fault placed at top level, under !, inside a call argument, below a (cascaded) field access, in an operand that constant folding removes, an IN item, a BETWEEN bound, a select field, an aggregate argument, or a PUT/REMOVE/DELETE expression must make BuildPlan return an error with an empty storage log whatever the store holds. Non-trivial: every generated statement; distinct by statement text."
 }
 
 func (c14) Assumptions() []string {
@@ -40,7 +40,7 @@ func (c14) Gates(tier string, m map[string]int64) []rt.Gate {
 	for _, f := range []string{"operand-type", "non-boolean-where", "non-boolean-not", "forbidden-keyword", "unknown-function", "arity"} {
 		gs = append(gs, rt.GateMin("fault kind "+f, m, "fault:"+f, 50))
 	}
-	for _, p := range []string{"top", "under-not", "call-arg", "in-item", "between-bound", "select-field", "aggregate-arg", "put", "remove", "delete", "and-or-operand", "under-index"} {
+	for _, p := range []string{"top", "under-not", "call-arg", "in-item", "between-bound", "select-field", "aggregate-arg", "put", "remove", "delete", "and-or-operand", "under-index", "folded-away-operand"} {
 		gs = append(gs, rt.GateMin("fault position "+p, m, "pos:"+p, 20))
 	}
 	return gs
@@ -191,7 +191,7 @@ func (k c14) negative(c *rt.Ctx, st *gen.Store) {
 	g.NoAlias = true
 	K, V := gen.Key, gen.Value
 	var q, fault, pos string
-	place := r.Intn(16)
+	place := r.Intn(17)
 	sel := func(field, where string) string { return "select " + field + " where " + where }
 	switch place {
 	case 0: // top: non-Boolean WHERE
@@ -343,6 +343,22 @@ func (k c14) negative(c *rt.Ctx, st *gen.Store) {
 			q = "select key as k1, upper(join('-', k1, " + fn + ")) as u where true"
 		}
 		fault, pos = f, "call-arg"
+	case 15: // in an operand that constant folding removes (true | X, false & X)
+		bad := []string{"nosuch(key) = 'a'", "upper(key, 1) = 'A'", "strlen() > 1", "nosuch(1, 2) = 3", "is_int(value, 1)", "lower(nosuch2(value)) = 'a'"}[r.Intn(6)]
+		fault = "unknown-function"
+		if strings.Contains(bad, "upper(key, 1)") || strings.Contains(bad, "strlen()") || strings.Contains(bad, "is_int(value, 1)") {
+			fault = "arity"
+		}
+		konst := []string{"(1 = 1) | ", "(2 > 3) & ", "('a' = 'a') or ", "(1 + 1 = 3) and "}[r.Intn(4)]
+		w := konst + "(" + bad + ")"
+		if r.Bool() {
+			w = "key ^= 'k' & (" + w + ")"
+		}
+		q = sel([]string{"*", "key, value", "count(1)"}[r.Intn(3)], w)
+		if r.Chance(1, 4) {
+			q = "delete where " + w
+		}
+		pos = "folded-away-operand"
 	case 14: // below a field access of one, two or three levels
 		lv := r.Range(1, 3)
 		idx := strings.Repeat("['a']", lv)
